@@ -4,7 +4,7 @@ from core import Inst
 
 META = {
     'functions': ['qbe.c:emittype', 'qbe.c:emitclass', 'qbe.c:qbetype', 'qbe.c:emitname', 'decl.c:addmember'],
-    'bounds': {'descriptor': 'structs of <= 3 members over {char short int long float double, bit-fields in char/short/int/long units with symbolic width, char[3], int[2]}'},
+    'bounds': {'descriptor': 'structs of <= 3 members over {char short int long float double, bit-fields in char/short/int/long units with symbolic width, char[3], int[2], char[2][3], int[2][2]}'},
     'stubs': ['printf/putchar/puts decode the type definition', 'error()/fatal() end the path'],
     'outside': ['mixed cproc/gcc executables (needs QBE and an assembler)', 'call-site argument classes and variadic marker', 'unions and nested aggregates', 'va_list descriptors', '_Alignas on members'],
 }
@@ -13,14 +13,14 @@ ALL = ['decl', 'type', 'util']
 
 def instances(build, tier, seed):
     L = []
-    letters = 'csilfdCSILaA'
+    letters = 'csilfdCSILaAmN'
     seqs = [''.join(t) for n in (1, 2) for t in itertools.product(letters, repeat=n)]
     if tier == 'thorough':
         seqs += [''.join(t) for t in itertools.product('cilfCIL', repeat=3)]
     else:
         seqs += [''.join(t) for t in itertools.product('ciCL', repeat=3)][::2]
     for sq in seqs:
-        L.append(Inst('descr.%s' % sq, 'h_emittype.c', {'SEQ': '"%s"' % sq}, units=ALL, overrides=['fatal', 'xmalloc', 'error'], unwind=10, unwindset=['streq.0:14'],
+        L.append(Inst('descr.%s' % sq, 'h_emittype.c', {'SEQ': '"%s"' % sq}, units=ALL, overrides=['fatal', 'xmalloc', 'error'], unwind=10, unwindset=['streq.0:14'] + ['main.%d:34' % i for i in range(16)],
                       native_units=['tree', 'token', 'map', 'expr', 'eval', 'init', 'scope', 'targ', 'attr', 'stmt', 'utf', 'scan', 'pp'], family='descr',
                       timeout=300, bound={'members': sq, 'bit-field widths': 'symbolic'}))
     return L
